@@ -253,6 +253,81 @@ fn ec_one(path: &[(autosar_data::ElementName, autosar_data_specification::Elemen
             }
         }
     }
+    // copy one of the children inside the element, at a position around the range of its name
+    let kids_now: Vec<Element> = cur.sub_elements().collect();
+    if let Some(c) = kids_now.iter().filter(|c| c.element_name() != ElementName::ShortName).nth(rng.below(kids_now.len().max(1)) % kids_now.len().max(1)).or(kids_now.iter().find(|c| c.element_name() != ElementName::ShortName)) {
+        let n = c.element_name();
+        let range = cur.calc_element_insert_range(n, v);
+        let (lo, hi) = match &range { Ok((a, b)) => (*a, *b), Err(_) => (0, kids_now.len()) };
+        let choices = [lo, hi, lo.wrapping_sub(1), hi + 1];
+        let p = choices[rng.below(choices.len())];
+        let p = if p > kids_now.len() + 1 { 0 } else { p };
+        let before: Vec<ElementName> = cur.sub_elements().map(|e| e.element_name()).collect();
+        let r = cur.create_copied_sub_element_at(c, p);
+        stats[2] += 1;
+        let expect_ok = range.is_ok() && lo <= p && p <= hi;
+        let after: Vec<ElementName> = cur.sub_elements().map(|e| e.element_name()).collect();
+        match (&r, expect_ok) {
+            (Ok(_), false) => return Err(format!("create_copied_sub_element_at({}, {}) succeeded although the reported range is {:?} [parent {} children {:?}]", n, p, range.as_ref().ok(), cur.element_name(), before)),
+            (Err(e), true) => return Err(format!("create_copied_sub_element_at({}, {}) inside the reported range {}..={} failed: {} [parent {} children {:?}]", n, p, lo, hi, e, cur.element_name(), before)),
+            (Ok(_), true) => { let mut want = before.clone(); want.insert(p, n); if after != want { return Err(format!("after create_copied_sub_element_at({}, {}) the children are {:?}, expected {:?}", n, p, after, want)); } }
+            (Err(_), false) => { if after != before { return Err(format!("a refused create_copied_sub_element_at({}) changed the children", n)); } }
+        }
+    }
+    // copy the whole element into a file of another version: whatever arrives must be permitted there
+    if path.len() >= 2 && rng.below(3) == 0 {
+        let others = autosar_data_specification::expand_version_mask(u32::MAX);
+        let v2 = others[rng.below(others.len())];
+        if v2 != v {
+            let model2 = AutosarModel::new();
+            if let Ok(file2) = model2.create_file("f2.arxml", v2) {
+                let mut cur2 = model2.root_element();
+                let mut ok = true;
+                for (k, (name, _)) in path.iter().enumerate().skip(1).take(path.len() - 2) {
+                    let named = cur2.element_type().find_sub_element(*name, v2 as u32).map(|(t, _)| t.is_named_in_version(v2));
+                    let r = match named { Some(true) => cur2.create_named_sub_element(*name, &format!("n{}", k)), Some(false) => cur2.create_sub_element(*name), None => { ok = false; break; } };
+                    match r { Ok(e) => cur2 = e, Err(_) => { ok = false; break; } }
+                }
+                if ok {
+                    let before = cur2.serialize();
+                    let r = cur2.create_copied_sub_element(&cur);
+                    stats[2] += 1;
+                    match r {
+                        Err(_) => { if cur2.serialize() != before { return Err(format!("a refused create_copied_sub_element of {} into a {} file changed the target", cur.element_name(), v2.filename())); } }
+                        Ok(copy) => {
+                            if cur2.element_type().find_sub_element(copy.element_name(), v2 as u32).is_none() { return Err(format!("{} copied into a {} file although the specification does not list it there", copy.element_name(), v2.filename())); }
+                            // Does the copied subtree contain an element whose type depends on the version?  (deep_copy keeps the
+                            // source's element types; the recorded finding F-C07-cross-version-copy is about exactly these histories)
+                            fn ec_retyped(e: &Element, expect: autosar_data_specification::ElementType, v2: AutosarVersion) -> bool {
+                                if e.element_type() != expect { return true; }
+                                for c in e.sub_elements() {
+                                    match expect.find_sub_element(c.element_name(), v2 as u32) { Some((t, _)) => if ec_retyped(&c, t, v2) { return true; }, None => return true }
+                                }
+                                false
+                            }
+                            let expect = cur2.element_type().find_sub_element(copy.element_name(), v2 as u32).map(|x| x.0).unwrap();
+                            let retyped = ec_retyped(&copy, expect, v2);
+                            let tag = if retyped { "cross-version copy with version-dependent element type: " } else { "" };
+                            // what the copy reports as allowed can be created in it, and the loader accepts the result
+                            for k in 0..3 {
+                                let Some(info) = copy.list_valid_sub_elements().into_iter().filter(|i| i.is_allowed).nth(k) else { break };
+                                let r = if info.is_named { copy.create_named_sub_element(info.element_name, &format!("cc{}", k)) } else { copy.create_sub_element(info.element_name) };
+                                if let Err(e) = r { return Err(format!("{}an element reported as allowed cannot be created in the copy [{} copied from a {} file into a {} file reports {} as allowed but creating it fails: {}]", tag, copy.element_name(), v.filename(), v2.filename(), info.element_name, e)); }
+                            }
+                            let text2 = file2.serialize().map_err(|e| format!("serialize: {}", e))?;
+                            match AutosarModel::new().load_buffer(text2.as_bytes(), "g2.arxml", false) {
+                                Err(e) => return Err(format!("{}the target file is rejected by lenient loading [after copying {} from a {} file into a {} file: {}] :: document {}", tag, cur.element_name(), v.filename(), v2.filename(), e, hex(text2.as_bytes()))),
+                                Ok((_, warnings)) => for w in &warnings {
+                                    let s = w.to_string();
+                                    if !s.contains("is required in element") { return Err(format!("{}lenient loading of the target file complains [after copying {} from a {} file into a {} file: {}] :: document {}", tag, cur.element_name(), v.filename(), v2.filename(), s, hex(text2.as_bytes()))); }
+                                }
+                            }
+                        }
+                    }
+                }
+            }
+        }
+    }
     // serialize -> lenient load -> serialize
     let text = file.serialize().map_err(|e| format!("serialize: {}", e))?;
     stats[5] += 1;
